@@ -17,6 +17,6 @@ Iso4 == { {{1,2},{2,3},{3,4}}, {{1,2},{1,3},{1,4}}, {{1,2},{2,3},{3,4},{4,1}}, {
 AllJoined == {FNode}
 AnyJoined == SUBSET FNode
 
-MView == <<nbr, grp, ann>>
+MView == <<nbr, pend, grp, ann>>
 FView == <<olinks, members, win, fnet, dcount, fcount, norig, nwin, nfloss, fsent>>
 =============================================================================
